@@ -17,7 +17,7 @@ PROPERTY = "C11"
 LEAN_MODULES = ["Proofs.C11", "Proofs.C11.Max", "Proofs.C11.Invariant", "Proofs.C11.Refine", "Proofs.C11.RefineWithdraw"]
 DRIVERS = ["driver_aaverisk"]
 RULE = ("portfolios over the uppercase symbols of the four risk-parameter CSVs (1-3 collateral supplies, 0-2 non-collateral supplies, 0-3 debts, "
-        "indices 1..3, prices log-uniform over 8 decades) in health classes no-debt / healthy / HF = 1 / HF < 1; one call per case: borrow, withdraw, "
+        "indices 1..3, prices log-uniform over 11 decades (1e-6 .. 1e5)) in health classes no-debt / healthy / HF = 1 / HF < 1; one call per case: borrow, withdraw, "
         "change_collateral, get_max_borrow_amount (+ borrow of it, borrow(None), borrow beyond the limit), get_max_withdraw_amount (+ withdraw of it, "
         "beyond it); plus SEQUENCES of 4-9 calls on one market inside one bar (borrow - mostly the same token again and again -, withdraw, change_collateral, "
         "supply, repay with cash / collateral, figures read in between so that the next call meets warm caches), every amount aimed at the frontier of the "
@@ -59,7 +59,7 @@ def gen_portfolio(rng, exact, special=False):
             toks[n] = {"li": rng.choice(["1", "1.5", "2", "1.25"]), "bi": rng.choice(["1", "2", "2.5"]), "p": rng.choice(["1", "0.5", "2", "1000", "1600", "0.25"])}
         else:
             toks[n] = {"li": str(D(1) + D(rng.randint(0, 2 * 10 ** 9)) / D(10 ** 9)), "bi": str(D(1) + D(rng.randint(0, 2 * 10 ** 27)) / D(10 ** 27)),
-                       "p": str(L.rnd_dec(rng, -4, 4, rng.choice([1, 3, 8])))}
+                       "p": str(L.rnd_dec(rng, -6, 5, rng.choice([1, 3, 8])))}
     supplies = []
     for n in colls:
         val = D(rng.choice([1000, 2000, 33000, 5])) * D(10000) if exact else L.rnd_dec(rng, 0, 7, 6)
